@@ -166,15 +166,16 @@ func promCases() []*PromCase {
 	return out
 }
 
-func runPromCases(r *ev.Run, g *gstat, cases []*PromCase) {
-	parallel(cases, func(c *PromCase) {
+func runPromCases(r *sink, g *gstat, cases []*PromCase) {
+	parallel(r, cases, func(c *PromCase) {
 		body, err := runProm(c)
 		if err != nil {
 			ev.Fatal("prom: writeResponse returned %v", err)
 		}
 		g.add(body)
+		debugBody(body)
 		k, _ := json.Marshal(c)
-		r.Distinct("prom|" + string(k))
+		r.Distinct_("prom|" + string(k))
 		if b := checkProm(c, body); b != nil {
 			r.Outcome(b.Class)
 			violate(r, "prom", c, b)
